@@ -5,10 +5,13 @@ cd /verif || exit 2
 trap 'git -C /repo checkout -q -- .; rm -rf /tmp/vr_mx; exit 3' TERM INT
 checks=(C01 C04 C05 C06 C07 C08 C09 C10 C11 C14 C15 C17 C18)
 out=seeded/MATRIX.txt
-printf "%-6s" seed > $out; for c in "${checks[@]}"; do printf " %-5s" $c >> $out; done; echo >> $out
+if [ ! -f $out ]; then printf "%-6s" seed > $out; for c in "${checks[@]}"; do printf " %-5s" $c >> $out; done; echo >> $out; fi
+# drop a half-written last row (interrupted run), keep complete rows
+awk 'NF==14' $out > $out.tmp && mv $out.tmp $out
 for d in seeded/*/; do
   name=$(basename $d)
   grep -q "gneiss-mqtt/src/protocol.rs\|gneiss-mqtt/src/alias.rs" $d/patch.diff || continue
+  grep -q "^$name " $out && continue
   if ! git -C /repo diff --quiet; then echo "repo dirty, abort"; exit 2; fi
   git -C /repo apply "$PWD/$d/patch.diff" || { echo "$name: patch does not apply"; continue; }
   printf "%-6s" $name >> $out
